@@ -26,7 +26,7 @@ META = {
             "on in the model TLC shows the round trip holds on the whole bounded domain. Exploration level: family R is the "
             "weakest fit of a TLA+ approach (DESIGN.md section 7): the spec contributes the structured exhaustive input "
             "space, the model of precedence/grouping and the span predicate; text equality is decided in Go.",
-    "note": "Bounds: shapes <= 5 nodes quick / 6 thorough, <= 2 args in enumerated shapes, queries <= 4/5 leaves, abstract "
+    "note": "Bounds: shapes <= 5 nodes quick / 6 thorough, <= 2 args in enumerated shapes, queries <= 3/5 leaves, abstract "
             "strings <= 2/3 characters; literal values are classes (tables in tools/props/exprlib.py). Domain: floats with 2 "
             "decimals, lat/lngs with <= 6 decimals, symbols/keys/namespaces the lexer accepts, string tag values, no "
             "collection literals, no literal kinds the printer calls broken-value. Trusted: TLC, the Go adapter's "
@@ -52,7 +52,7 @@ CHECK_DEADLOCK FALSE
 
 
 def bounds(ctx):
-    return dict(size=ctx.pick(5, 6), args=2, qsize=ctx.pick(4, 5), strlen=ctx.pick(2, 3))
+    return dict(size=ctx.pick(5, 6), args=2, qsize=ctx.pick(3, 5), strlen=ctx.pick(2, 3))
 
 
 def enumerate_with_tlc(ctx):
